@@ -602,8 +602,12 @@ func judge(p Property, meta Meta, tier string, seed int64, n int, agg *aggregate
 	if meta.Exhaustive != nil && meta.Exhaustive(tier) && verdict != "inconclusive" {
 		cov["exhaustive"] = true
 	}
+	level := meta.Level
+	if level == "" {
+		level = "exploration"
+	}
 	ev := evidence{
-		PropertyID: meta.ID, Tier: tier, Seed: seed, Level: "exploration",
+		PropertyID: meta.ID, Tier: tier, Seed: seed, Level: level,
 		Coverage: cov, Assumptions: meta.Assumptions,
 		WallS: time.Since(start).Seconds(), Violations: newViol, Verdict: verdict,
 	}
